@@ -8,7 +8,7 @@ MANIFEST_NOTES = ("Every check is `bin/vcheck <id> quick|thorough`; VERIF_SEED s
 CHECKS["C19"] = {
     "pkg": "./c19", "run": "^TestC19$", "level": "exploration",
     "technique": "runtime monitor: sorted-multiset reference model checked after every queue operation over seeded operation sequences",
-    "level_text": "Differential monitor of the real utils.PriorityQueue against a sorted-multiset model over tens of thousands (quick) to millions (thorough) of seeded operation sequences in which source and reversed queues are both kept in use; held means no divergence on any observed sequence. Every third case builds its first queue from 1-7 initial items handed to the constructor in arbitrary order. Every fourth tie-rich case draws priorities from the edges of the non-negative floats (negative zero, zero, the smallest subnormal, one, the largest finite value).",
+    "level_text": "Differential monitor of the real utils.PriorityQueue against a sorted-multiset model over tens of thousands (quick) to millions (thorough) of seeded operation sequences in which source and reversed queues are both kept in use; held means no divergence on any observed sequence. Every third case builds its first queue from 1-7 initial items handed to the constructor in arbitrary order. Every fourth tie-rich case draws priorities from the edges of the non-negative floats (negative zero, zero, the smallest subnormal, one, the largest finite value). In half of the cases that build a queue from initial items, a second queue of the other kind and a third from a prefix are built from the same caller's list, which has spare capacity.",
     "level_note": "Sampled sequences only (sizes up to ~400 items); container/heap trusted; single goroutine (the queue is not meant to be shared).",
     "shards": {"quick": 4, "thorough": 16},
     "timeout": {"quick": 300, "thorough": 1800},
@@ -22,7 +22,7 @@ CHECKS["C19"] = {
 CHECKS["C01"] = {
     "pkg": "./c01", "run": "^TestC01", "level": "exploration", "mem_gb": {"quick": 0, "thorough": 0},
     "technique": "runtime monitor: reference map id->(vector,metadata) checked against every Search result over seeded insert/remove/update/snapshot histories",
-    "level_text": "Reference-model monitor over thousands (quick) to hundreds of thousands (thorough) of seeded histories with generated index parameters; every Search result is checked for liveness, metadata, bit-exact score, order, uniqueness, size and non-emptiness. Held means no observed result violated the property. The dataset-level part (4 quick / 32 thorough clusters) issues single and batch inserts, updates and removes through any node and runs the same oracle on Dataset.Search; a round whose replicas are at rest without reaching the reference state is judged by the oracle (what a search returns then is stale or lost data). Every second save-and-load loads into an index that already holds other items, and snapshots of an empty index are taken too.",
+    "level_text": "Reference-model monitor over thousands (quick) to hundreds of thousands (thorough) of seeded histories with generated index parameters; every Search result is checked for liveness, metadata, bit-exact score, order, uniqueness, size and non-emptiness. Held means no observed result violated the property. The dataset-level part (4 quick / 32 thorough clusters) issues single and batch inserts, updates and removes through any node and runs the same oracle on Dataset.Search; a round whose replicas are at rest without reaching the reference state is judged by the oracle (what a search returns then is stale or lost data). Every second save-and-load loads into an index that already holds other items, and snapshots of an empty index are taken too. One history in eight ends with searches by six goroutines at once while nobody writes, judged by the same oracle.",
     "level_note": "Sequential histories on one index, plus a smaller number of write histories through the Dataset API of in-process clusters (1..3 nodes, replicas quiescent before each search round) judged by the same oracle; concurrency is C13, exactness of the dataset merge is C09; NaN-producing inputs excluded (C12); the index dump hook is used only to classify failures.",
     "shards": {"quick": 8, "thorough": 16},
     "timeout": {"quick": 600, "thorough": 3000},
@@ -34,7 +34,7 @@ CHECKS["C01"] = {
 CHECKS["C07"] = {
     "pkg": "./c07", "run": "^TestC07$", "level": "exploration",
     "technique": "runtime monitor: brute-force ranking with the same space.Distance as oracle (bit-exact score sequence on small collections; mean recall@10 floor on large ones)",
-    "level_text": "Differential monitor against brute force: exact top-k (bitwise score sequence, ids modulo ties) for thousands of seeded insert-only collections within the small-collection bound, every k in 1..n+1, harness-chosen levels; mean recall@10 >= 0.8 over 200 queries on each of 2 (quick) / 6 (thorough) random collections of 2000-5000 vectors built with default parameters.",
+    "level_text": "Differential monitor against brute force: exact top-k (bitwise score sequence, ids modulo ties) for thousands of seeded insert-only collections within the small-collection bound, every k in 1..n+1, harness-chosen levels; mean recall@10 >= 0.8 over 200 queries on each of 2 (quick) / 6 (thorough) random collections of 2000-5000 vectors built with default parameters. One small collection in eight is also searched by six goroutines at once, every answer compared with brute force.",
     "level_note": "Sampled point sets, orders and level assignments; the recall floor is a statistical statement about the collections built here (seeded, deterministic), not a bound for all data.",
     "shards": {"quick": 8, "thorough": 16},
     "timeout": {"quick": 600, "thorough": 3000},
@@ -83,7 +83,7 @@ CHECKS["C04"] = {
 CHECKS["C06"] = {
     "pkg": "./c06", "run": "^TestC06$", "level": "exploration",
     "technique": "runtime monitor: differential execution of storage/wal badgerWAL against etcd/raft MemoryStorage after every call, with reopen and several groups in one database",
-    "level_text": "Differential monitor: seeded legal call sequences (appends incl. conflicting overwrites, hard states, received snapshots inside and beyond the log with and without trailing entries, local snapshot+compaction, reopen with cold cache or closed database, DeleteGroup + re-create, 1-4 groups interleaved incl. uuid.Nil and adjacent ids) are applied to the Badger store and to MemoryStorage; after every call FirstIndex, LastIndex, Term over [first-2,last+2], Entries under several size limits, Snapshot and InitialState are compared, for the acted-on group and for the others. After every second DeleteGroup the same store object goes on being used; one case in eighty appends batches of more than 8000 entries and compacts nearly all of them at once; every history ends with a reopen of every group and one more comparison.",
+    "level_text": "Differential monitor: seeded legal call sequences (appends incl. conflicting overwrites, hard states, received snapshots inside and beyond the log with and without trailing entries, local snapshot+compaction, reopen with cold cache or closed database, DeleteGroup + re-create, 1-4 groups interleaved incl. uuid.Nil and adjacent ids) are applied to the Badger store and to MemoryStorage; after every call FirstIndex, LastIndex, Term over [first-2,last+2], Entries under several size limits, Snapshot and InitialState are compared, for the acted-on group and for the others. After every second DeleteGroup the same store object goes on being used; one case in eighty appends batches of more than 8000 entries and compacts nearly all of them at once; every history ends with a reopen of every group and one more comparison. One case in eighty writes entries of more than a megabyte (stored outside the LSM tree by the production options); size limits are probed one below, exactly at and one above every prefix boundary.",
     "level_note": "Only call sequences raft may legally issue; Badger itself is trusted (SyncWrites off in the harness, process-crash durability is C03).",
     "shards": {"quick": 8, "thorough": 16},
     "timeout": {"quick": 600, "thorough": 3000},
@@ -106,9 +106,9 @@ CHECKS["C15"] = {
 }
 
 CHECKS["C16"] = {
-    "pkg": "./c16", "run": "^TestC16$", "level": "exploration",
+    "pkg": "./c16", "run": "^TestC16", "level": "exploration",
     "technique": "runtime monitor: structural check of every placement proposed by the real DatasetManager.Create/Allocator over a scripted raft.Group, plus fixed-threshold independence and spread statistics",
-    "level_text": "Monitor on the real Create path (allocator + cluster connection) with a scripted raft group that captures the proposal bytes: for every N in 1..16 x R in 1..8 x P in {1,2,3,8,64} (all 640 configurations, 30 creates each quick / 400 thorough) each partition must get exactly min(R,N) distinct member nodes; independence is decided with fixed thresholds (an all-identical placement where its probability is <= 1e-12; pair-coincidence rate and per-node load inside Hoeffding bands with delta = 1e-10). After the static matrix every configuration goes through a membership history (24 quick / 120 thorough steps: removals of nodes that were dialled before and of nodes that never were, joins), with creates for R in {1,3,8} after every step: each placement must use exactly min(R, N) distinct nodes that are members at that moment. A further family commits and applies every create before the next one is placed (200 quick / 1200 thorough creates for 3 shapes per N, over a real log store, local node not a member): pair coincidence, all-identical placements and a create repeating the previous placement are tested with the same fixed thresholds.",
+    "level_text": "Monitor on the real Create path (allocator + cluster connection) with a scripted raft group that captures the proposal bytes: for every N in 1..16 x R in 1..8 x P in {1,2,3,8,64} (all 640 configurations, 30 creates each quick / 400 thorough) each partition must get exactly min(R,N) distinct member nodes; independence is decided with fixed thresholds (an all-identical placement where its probability is <= 1e-12; pair-coincidence rate and per-node load inside Hoeffding bands with delta = 1e-10). After the static matrix every configuration goes through a membership history (24 quick / 120 thorough steps: removals of nodes that were dialled before and of nodes that never were, joins), with creates for R in {1,3,8} after every step: each placement must use exactly min(R, N) distinct nodes that are members at that moment. A further family commits and applies every create before the next one is placed (200 quick / 1200 thorough creates for 3 shapes per N, over a real log store, local node not a member): pair coincidence, all-identical placements and a create repeating the previous placement are tested with the same fixed thresholds. Real-cluster part (2 quick / 16 thorough): a member is down while one node leaves and another joins, the others compact, the member returns (with -join false in every second case) and is caught up by the leader's snapshot; datasets with R in {1,3,8} created through it must be placed on min(R, N) distinct current members.",
     "level_note": "The configurations are enumerated exhaustively within the stated ranges; random seeds of the shuffle are sampled (global math/rand seeded from VERIF_SEED); statistical tests have a per-run false-alarm probability below 1e-7.",
     "shards": {"quick": 8, "thorough": 16},
     "timeout": {"quick": 300, "thorough": 1800},
@@ -121,7 +121,7 @@ CHECKS["C16"] = {
 CHECKS["C13"] = {
     "pkg": "./c13", "run": "^TestC13$", "level": "exploration",
     "technique": "Go race detector (deciding) + porcupine per-id linearizability + search-item liveness intervals + quiescent dump invariants + structural deadlock watchdog, over seeded stress runs with scheduling noise at index yield points",
-    "level_text": "Stress monitor of one index.Hnsw under -race: single-writer/many-readers and many-writers workloads (4..24 ids, up to 24 goroutines, GOMAXPROCS 2 and 16, seeded Gosched/sleep at the index's yield points). Every run is judged by the race detector, by porcupine on the recorded Insert/Remove/Get history partitioned by id, by liveness intervals of every item each search returned (with bit-exact score), by Len/contents/structural invariants and the C01 search oracle at quiescence, and by a structural deadlock criterion. Every fifth run uses only one or two ids (the index is emptied again and again), and every tenth run is a series of 1500 (quick) / 6000 (thorough) duels: 2-4 goroutines insert and remove the same one or two ids on an empty or one-item index, after which the quiescent invariants (entry point live and stored iff the index is non-empty, Len, contents, C01 search oracle) are checked.",
+    "level_text": "Stress monitor of one index.Hnsw under -race: single-writer/many-readers and many-writers workloads (4..24 ids, up to 24 goroutines, GOMAXPROCS 2 and 16, seeded Gosched/sleep at the index's yield points). Every run is judged by the race detector, by porcupine on the recorded Insert/Remove/Get history partitioned by id, by liveness intervals of every item each search returned (with bit-exact score), by Len/contents/structural invariants and the C01 search oracle at quiescence, and by a structural deadlock criterion. Every fifth run uses only one or two ids (the index is emptied again and again), and every tenth run is a series of 1500 (quick) / 6000 (thorough) duels: 2-4 goroutines insert and remove the same one or two ids on an empty or one-item index, after which the quiescent invariants (entry point live and stored iff the index is non-empty, Len, contents, C01 search oracle) are checked. One run in forty is a bulk run: 18 000 (quick) / 40 000 (thorough) items are loaded and the index is emptied to an eighth by six removers while six inserters add fresh ids and three readers read; at rest every acknowledged insert must be readable, every acknowledged removal gone, Len their number.",
     "level_note": "Interleavings are whatever the scheduler and the injected noise produced (not replayable); a clean race-detector run means no race was observed in these runs. checkptr is disabled in race builds because the SIMD wrappers pass the length as a fake pointer.",
     "shards": {"quick": 8, "thorough": 16},
     "race": {"quick": True, "thorough": True},
@@ -135,9 +135,11 @@ CHECKS["C13"] = {
 CHECKS["C17"] = {
     "mem_gb": {"quick": 0, "thorough": 0},
     "pkg": "./c17", "run": "^TestC17$", "level": "exploration",
-    "technique": "runtime monitor on an in-process cluster of real servers: Dataset.SizeInfo on every node vs the sum of harness-known partition sizes, with injected PartitionInfo failures and hangs (gRPC interceptors)",
+    "technique": "runtime monitor on an in-process cluster of real servers: Dataset.SizeInfo on every node vs the sum of harness-known partition sizes, with injected PartitionInfo failures and hangs (gRPC interceptors); the Go race detector decides for accesses inside Dataset.SizeInfo / Len / BytesSize (two unsynchronised writers of one sum)",
     "level_text": "Monitor on real anndb.Server clusters in one process (real raft, real gRPC between nodes): seeded topologies of 1..4 nodes, 1..8 partitions with pairwise distinct sizes, replication 1..3; SizeInfo is called repeatedly on every node (all-local, one-remote, several-remote placements) and must equal the sums of the per-partition sizes; then every needed remote lookup is made to fail or hang and the call must fail. Finally a node that holds replicas is removed from the membership after the others have asked it before (their client connections to it are closed): every SizeInfo afterwards fails or reports the full sums.",
     "level_note": "Topologies and completion orders are sampled (goroutine scheduling is not controlled beyond repetition); truth per partition is what a hosting node's PartitionInfo reports while quiescent; nodes that do not hold a partition are asked too and must fail or answer that true size (the serving half of a remote lookup; a caller with a lagging placement view would add the answer to its sum).",
+    "race": {"quick": True, "thorough": True},
+    "race_deciding_frames": ["storage.(*Dataset).SizeInfo", "storage.(*Dataset).Len", "storage.(*Dataset).BytesSize"],
     "shards": {"quick": 5, "thorough": 12},
     "timeout": {"quick": 900, "thorough": 3400},
     "rule": "case c = topology (nodes, partitions, replication) with distinct partition sizes; 5 SizeInfo calls per node plus 2 fault modes per node with remote partitions; non-trivial = >=2 partitions; distinct = digest of (topology, sizes, placement)",
@@ -162,7 +164,7 @@ CHECKS["C10"] = {
     "mem_gb": {"quick": 0, "thorough": 0},
     "pkg": "./c10", "run": "^TestC10$", "level": "exploration",
     "technique": "runtime monitor: routing function evaluated over ids x every modulus 1..1024 (range, repeatability, equality across fresh processes) + placement observed on an in-process cluster after writes through every entry node and API path",
-    "level_text": "Pure part: 20k (quick) / 200k (thorough) ids (random, all-zero, all-ones, every single bit, halves swapped) x every n in 1..1024: result in range, identical on repeated and concurrent evaluation, identical table digest in two fresh processes. System part: real 3-node clusters with 1/2/5/8 partitions and replication 1-2; each id is written through every entry node and insert path, updated from a second node and removed from a third through single and batch paths, and after each step exactly the replicas of partition route(id, n) hold it and no other partition does. Batches of 8-24 full-entropy ids spanning partitions are inserted, updated and removed, each step through a different node, and every id must be held by its owner only. Size queries and searches are issued on every node between the write phases (and before the first write in every second case).",
+    "level_text": "Pure part: 20k (quick) / 200k (thorough) ids (random, all-zero, all-ones, every single bit, halves swapped) x every n in 1..1024: result in range, identical on repeated and concurrent evaluation, identical table digest in two fresh processes. System part: real 3-node clusters with 1/2/5/8 partitions and replication 1-2; each id is written through every entry node and insert path, updated from a second node and removed from a third through single and batch paths, and after each step exactly the replicas of partition route(id, n) hold it and no other partition does. Batches of 8-24 full-entropy ids spanning partitions are inserted, updated and removed, each step through a different node, and every id must be held by its owner only. Size queries and searches are issued on every node between the write phases (and before the first write in every second case). In every second round a multi-partition batch also carries refused items (wrong dimension), first and in the middle.",
     "level_note": "Ids are sampled; the moduli 1..1024 are enumerated completely; the system part samples topologies (replica choice for proxied writes is random inside the code under test).",
     "shards": {"quick": 5, "thorough": 12},
     "timeout": {"quick": 900, "thorough": 3400},
@@ -176,7 +178,7 @@ CHECKS["C11"] = {
     "mem_gb": {"quick": 0, "thorough": 0},
     "pkg": "./c11", "run": "^TestC11$", "level": "exploration",
     "technique": "runtime monitor on an in-process cluster: acknowledged writes vs owner-partition contents, raft-log growth on rejected writes (RecWAL), batch error maps vs a model, and caller outcomes under a forced apply-before-wait schedule (pause point) and concurrent callers",
-    "level_text": "Monitor on real clusters of 1..3 nodes: (a) every acknowledged insert is on a replica of the owner immediately and on all at quiescence; (c) dimension mismatches are rejected and no partition raft log grows (durable view of the WAL wrapper); (d) batches mixing present, absent and wrong-dimension items return exactly the model's error map and apply the rest; (e) callers are held at the pause point between Propose and the wait until their own entry has been applied and must still get their own outcome, then 24 concurrent callers run insert/duplicate/update/remove/absent sequences whose outcomes are all distinguishable. Every caller also runs five batch steps on ids of its own whose error maps are pairwise distinguishable; and 24 callers per single-replica cluster leave on their own deadline at the pause point while their outcome is already buffered, after which the next write on the partition must get its own outcome.",
+    "level_text": "Monitor on real clusters of 1..3 nodes: (a) every acknowledged insert is on a replica of the owner immediately and on all at quiescence; (c) dimension mismatches are rejected and no partition raft log grows (durable view of the WAL wrapper); (d) batches mixing present, absent and wrong-dimension items return exactly the model's error map and apply the rest; (e) callers are held at the pause point between Propose and the wait until their own entry has been applied and must still get their own outcome, then 24 concurrent callers run insert/duplicate/update/remove/absent sequences whose outcomes are all distinguishable. Every caller also runs five batch steps on ids of its own whose error maps are pairwise distinguishable; and 24 callers per single-replica cluster leave on their own deadline at the pause point while their outcome is already buffered, after which the next write on the partition must get its own outcome. Unloaded-while-pending family: three nodes, a two-replica partition whose other replica is down, three writes accepted by raft that cannot commit, then the dataset is deleted through the third node - each write must return an error.",
     "level_note": "(b) unreachable owner is produced through the public API (the only hosting node is removed from the cluster, so the entry node forgets its address while the partition still lists it); interleavings beyond the forced one are whatever concurrency produced.",
     "shards": {"quick": 5, "thorough": 12},
     "timeout": {"quick": 900, "thorough": 3400},
@@ -219,7 +221,7 @@ CHECKS["C14"] = {
     "aux": [{"pkg": "github.com/marekgalovic/anndb/cmd/anndb", "name": "anndb", "env": "VERIF_ANNDB_BIN", "tags": "verif"}],
     "mem_gb": {"quick": 0, "thorough": 0},
     "technique": "runtime monitor on an in-process cluster of real servers: catalogue equality (id, dimension, metric, partition ids in order, replica assignment) of every live node vs the acknowledged model after a logical marker, across create/delete sequences, forced catalogue-log compaction, restarts, and a node catching up by snapshot; plus a replica-set family: agreement of the replica assignment across members, and of what each member lists with what it routes by, after node 3 is added to under-replicated partitions and removed again, across compaction, restart and catch-up by snapshot Also on real cmd/anndb processes killed with SIGKILL in the middle of catalogue writes at ready-loop points of the membership-and-catalogue group; and a family in which a member falls behind without going down, is caught up by snapshot, snapshots again and restarts.",
-    "level_text": "Monitor on real clusters of 1..3 nodes with real start-up wiring: seeded sequences of create / delete / compaction / restart / node-down-while-the-catalogue-changes-and-the-others-compact; after each restart or catch-up and at the end (and again after restarting every node) each live node's List must equal the acknowledged catalogue exactly, deleted datasets must not be listed and no raft group of their partitions may still run on any node. Real-process part (48 quick / 600 thorough cases): 12 create/delete operations through a surviving node while the victim is killed with SIGKILL at the k-th hit of a zero-group ready-loop point (weighted towards the log write; the loop that reached the point may be held 10 ms so that replies on their way out leave) or between two operations; after the restart and a marker every node's List must contain every acknowledged creation unchanged, no acknowledged deletion, nothing unknown, and all nodes must agree. Cut-off member family (4 quick / 40 thorough): a member takes a snapshot, is cut off while the catalogue changes and the others compact, is caught up by the leader's snapshot, applies a leader change's empty entry, snapshots again and restarts; its List is compared before any marker.",
+    "level_text": "Monitor on real clusters of 1..3 nodes with real start-up wiring: seeded sequences of create / delete / compaction / restart / node-down-while-the-catalogue-changes-and-the-others-compact; after each restart or catch-up and at the end (and again after restarting every node) each live node's List must equal the acknowledged catalogue exactly, deleted datasets must not be listed and no raft group of their partitions may still run on any node. Real-process part (48 quick / 600 thorough cases): 12 create/delete operations through a surviving node while the victim is killed with SIGKILL at the k-th hit of a zero-group ready-loop point (weighted towards the log write; the loop that reached the point may be held 10 ms so that replies on their way out leave) or between two operations; after the restart and a marker every node's List must contain every acknowledged creation unchanged, no acknowledged deletion, nothing unknown, and all nodes must agree. Cut-off member family (4 quick / 40 thorough): a member takes a snapshot, is cut off while the catalogue changes and the others compact, is caught up by the leader's snapshot, applies a leader change's empty entry, snapshots again and restarts; its List is compared before any marker. Every second scenario has a burst of six concurrent creations and their concurrent deletions through one node.",
     "level_note": "Sequences are sampled from a fixed seeded family; crash = in-process teardown at step boundaries (mid-write crash points are C03's); replica-set changes are the allocator's own (node 3 joins while datasets want 3 replicas on 2 members, node 3 is removed); which partitions change depends on the allocator (only a partition's first replica may change it), so where a particular outcome cannot be expected the verdict is agreement (across members at rest; listed vs in effect on one member), and an allocator change that never arrives is inconclusive.",
     "shards": {"quick": 8, "thorough": 16},
     "timeout": {"quick": 900, "thorough": 3400},
@@ -232,7 +234,7 @@ CHECKS["C05"] = {
     "pkg": "./c05", "run": "^TestC05$", "level": "fault_enumeration",
     "mem_gb": {"quick": 0, "thorough": 0},
     "technique": "online trace monitors (apply agreement, in-order apply, durable-before-send, restart monotonicity and exact equality of the log a replica resumes from with the log its previous incarnation made durable, one leader per term, no fatal, bounded convergence) over every raft message (SimNet shim), every durable write (WAL wrapper) and every applied entry of in-process real servers under seeded loss/delay/duplication/partition/crash-restart schedules",
-    "level_text": "Real servers in one process with all raft traffic routed through a recording network shim and all log stores wrapped: seeded schedules of 6-10 phases (drop 0-30%, duplication, delays up to 80 ms against 50-100 ms election timeouts, minority and one-way partitions, immediate crashes and crashes armed at the k-th durable write, restarts) run against groups of 1, 3 and 5 replicas plus the zero group while 5 sequential clients write. Seven monitors judge every message against the sender's durable view at the instant it leaves, every applied entry, every Save and every restart; after faults stop all replicas must converge within 600 election timeouts of virtual ticks and hold exactly the acknowledged history. Every second scenario has a slow disk (one durable write in eight takes 1-15 ms), every third phase has sends that fail loudly, and every scenario with three or more replicas ends its fault phases with a forced history: one replica is cut off, the others compact, it returns with its ready-loop held up 40 ms per Ready over a link that fails half of the sends while the leader's loop is slow too.",
+    "level_text": "Real servers in one process with all raft traffic routed through a recording network shim and all log stores wrapped: seeded schedules of 6-10 phases (drop 0-30%, duplication, delays up to 80 ms against 50-100 ms election timeouts, minority and one-way partitions, immediate crashes and crashes armed at the k-th durable write, restarts) run against groups of 1, 3 and 5 replicas plus the zero group while 5 sequential clients write. Seven monitors judge every message against the sender's durable view at the instant it leaves, every applied entry, every Save and every restart; after faults stop all replicas must converge within 600 election timeouts of virtual ticks and hold exactly the acknowledged history. Every second scenario has a slow disk (one durable write in eight takes 1-15 ms), every third phase has sends that fail loudly, and every scenario with three or more replicas ends its fault phases with a forced history: one replica is cut off, the others compact, it returns with its ready-loop held up 40 ms per Ready over a link that fails half of the sends while the leader's loop is slow too. Every eighth scenario is a late-joiner history: the third replica joins an under-replicated partition after writes have happened and crashes before/after one of its partition group's first four durable writes (its catalogue snapshotted in between in half of them, so that the restart passes the member list), then restarts.",
     "level_note": "etcd/raft itself is trusted; schedules are sampled (only the crash boundary index is a systematic dimension); goroutine scheduling is not replayable, the witness is the recorded event tail.",
     "shards": {"quick": 8, "thorough": 16},
     "timeout": {"quick": 900, "thorough": 3400},
@@ -245,7 +247,7 @@ CHECKS["C18"] = {
     "pkg": "./c18", "run": "^TestC18$", "level": "exploration",
     "mem_gb": {"quick": 0, "thorough": 0},
     "technique": "runtime monitor: bounded progress of catalogue/membership calls on in-process real servers under join/remove/re-join bursts interleaved with create/delete, a restart replay, and membership churn behind a node-change handler that can never finish; a structural wait-for-cycle detector over goroutine dumps (same goroutines parked in the cycle for more than a minute) is the deciding criterion on a stall",
-    "level_text": "Real 3- and 4-node clusters in one process. Family A: under-replicated datasets are created (so the allocator itself proposes catalogue changes), then node 3 joins, is removed and re-joins 2-4 times while datasets are created and deleted concurrently from both other nodes, with scheduling noise at the allocator's lock/hand-over points; then a node with existing datasets is restarted (replay burst) and must answer List and apply a marker. Family B (one case in twelve): a replica that leads a two-replica partition group dies and is removed from the cluster, so the surviving replica's node-change handler waits for a leader that cannot be elected; node 4 then joins and leaves 6-8 times (12-16 notifications, more than the notification channel held) and a catalogue entry created afterwards must be applied on both live members. Family C (one case in twelve): the address book's notification contract on its own - 400 (quick) / 3000 (thorough) seeded scripts of change bursts and single subscriber steps around the channel's capacity; a membership call parked in a channel send below the notification code while the subscriber is stalled is a violation, and every change must be delivered exactly once, in order. A stall in A/B is a violation only if the goroutine dumps show one of the control plane's lock-and-channel wait-for cycles with every goroutine of the cycle parked in one uninterrupted wait for more than a minute (longer than every bounded wait of the control plane), or a ready-loop goroutine parked that long inside an apply callback; any other stall is inconclusive. In family A a dial that has taken the connection lock is held (yield points in cluster.Conn) until a membership change has taken the address lock, up to 40 ms; family B also deletes the dataset whose partition group has no leader. Besides the named cycles, a control-plane goroutine (innermost repository frame in cluster, storage or storage/raft) that has waited for a mutex for more than a minute is a wedge.",
+    "level_text": "Real 3- and 4-node clusters in one process. Family A: under-replicated datasets are created (so the allocator itself proposes catalogue changes), then node 3 joins, is removed and re-joins 2-4 times while datasets are created and deleted concurrently from both other nodes, with scheduling noise at the allocator's lock/hand-over points; then a node with existing datasets is restarted (replay burst) and must answer List and apply a marker. Family B (one case in twelve): a replica that leads a two-replica partition group dies and is removed from the cluster, so the surviving replica's node-change handler waits for a leader that cannot be elected; node 4 then joins and leaves 6-8 times (12-16 notifications, more than the notification channel held) and a catalogue entry created afterwards must be applied on both live members. Family C (one case in twelve): the address book's notification contract on its own - 400 (quick) / 3000 (thorough) seeded scripts of change bursts and single subscriber steps around the channel's capacity; a membership call parked in a channel send below the notification code while the subscriber is stalled is a violation, and every change must be delivered exactly once, in order. A stall in A/B is a violation only if the goroutine dumps show one of the control plane's lock-and-channel wait-for cycles with every goroutine of the cycle parked in one uninterrupted wait for more than a minute (longer than every bounded wait of the control plane), or a ready-loop goroutine parked that long inside an apply callback; any other stall is inconclusive. In family A a dial that has taken the connection lock is held (yield points in cluster.Conn) until a membership change has taken the address lock, up to 40 ms; family B also deletes the dataset whose partition group has no leader. Besides the named cycles, a control-plane goroutine (innermost repository frame in cluster, storage or storage/raft) that has waited for a mutex for more than a minute is a wedge. In the joins-only cases the restarted node stays down while the others create datasets and compact, so that it replays its own log and is then sent the leader's catalogue snapshot on top of the datasets it knows.",
     "level_note": "Interleavings are sampled, not enumerated; wall clock only triggers the dump analysis, the verdict is structural. Cycles are recognised by frame names of the allocator, catalogue and address-book code; a wedge of a different shape is reported as inconclusive, not as a violation.",
     "shards": {"quick": 6, "thorough": 16},
     "timeout": {"quick": 1200, "thorough": 3400},
